@@ -37,7 +37,7 @@ COMMIT_MSGS = [None, "bump {old_version} -> {new_version}", 'release "{new_versi
 TAG_MSGS = [None, "", "release {new_version}"]
 SCOPES = [None, "default", "global", "branch"]
 HOOKS = [None, "", "hook.sh", "missing.sh"]
-LAYOUTS = ["none", "1x1", "1x3", "2x2", "glob", "explicit", "glob-over-config"]
+LAYOUTS = ["none", "1x1", "1x3", "2x2", "glob", "explicit", "glob-over-config", "caps"]
 RENDERINGS = ["setup.cfg[bumpver]", "setup.cfg[pycalver]", "pyproject.toml", "bumpver.toml", ".bumpver.toml", "pycalver.toml",
               # the same files as they look when saved with Windows line endings
               "setup.cfg[bumpver]+crlf", "bumpver.toml+crlf",
@@ -63,6 +63,9 @@ def layout_entries(layout, cfgname, toml):
         return [("src/*.txt", ["ver={version};"])]
     if layout == "explicit":
         return [(cfgname, ["@OWN@"]), ("a.txt", ["ver={version};"])]
+    if layout == "caps":
+        # file names that look like identifiers and carry upper-case letters (INI option names are case-folded by default; file names are not)
+        return [("VERSION", ["{version}"]), ("Makefile", ["VERSION := {version}"]), ("docs/CHANGES", ["release {version}"])]
     if layout == "glob-over-config":
         # a glob that also reaches the config file itself (by its extension), for some other line: the config's own line stays configured
         ext = os.path.splitext(cfgname)[1]
@@ -239,13 +242,13 @@ def space(tier, seed):
 def explore(tier, seed):
     pts = list(space(tier, seed))
     if tier == "quick":
-        # the quick tier walks one fixed sixth of the product per seed (the thorough tier covers all of it)
+        # the quick tier walks one fixed eighth of the product per seed (the thorough tier covers all of it)
         main = [p for p in pts if p[8] is None]
         rest = [p for p in pts if p[8] is not None]
         # (sliced by a hash of the point: a stride would alias with the product's dimension sizes)
         from ..stats import h64
 
-        pts = [p for p in main if h64(p) % 6 == seed % 6] + rest
+        pts = [p for p in main if h64(p) % 8 == seed % 8] + rest
     chunks = [("cfg", part) for part in pool.split(pts, pool.NPROC * 4)]
     return pool.run_chunks(run_chunk, chunks)
 
@@ -258,7 +261,8 @@ def run_chunk(chunk):
     world.set_today(dt.date(2033, 3, 3))
     d = pool.fresh_dir("c18")
     os.chdir(d)
-    world.write_tree({"a.txt": b"ver=1.2.3;\n", "docs/b.txt": b"x\n", "src/x.txt": b"ver=1;\n", "src/y.txt": b"ver=2;\n", "hook.sh": b"#!/bin/sh\n"})
+    world.write_tree({"a.txt": b"ver=1.2.3;\n", "docs/b.txt": b"x\n", "src/x.txt": b"ver=1;\n", "src/y.txt": b"ver=2;\n", "hook.sh": b"#!/bin/sh\n",
+                      "VERSION": b"1.2.3\n", "Makefile": b"VERSION := 1.2.3\n", "docs/CHANGES": b"release 1.2.3\n"})
     cli_done = 0
     for n, abstract in enumerate(pts):
         results = {}
